@@ -280,6 +280,51 @@ func C04(c *core.Ctx) {
 			x.one(refcodec.SUBSCRIBE, wire, "foreign-decoder")
 		}
 	}
+	// (ii-0) a decoder object that has been used: every ordered pair of corpus packets of one
+	// type is decoded into one object; the second decode yields the second packet's fields,
+	// count and all, whatever the first one left in the object
+	e.class = "corpus-used-object"
+	for _, a := range corpus() {
+		for _, b := range corpus() {
+			if a.Type != b.Type || !refcodec.WellFormed(a) || !refcodec.WellFormed(b) || !mustAccept(a) || !mustAccept(b) {
+				continue
+			}
+			if !e.mine() {
+				continue
+			}
+			c.Rep.Evaluations++
+			wa, wb := refcodec.Encode(a), refcodec.Encode(b)
+			var m message.Message
+			var n int
+			var err error
+			var pan interface{}
+			func() {
+				defer func() { pan = recover() }()
+				m = newMsg(a.Type)
+				if _, err = m.Decode(wa); err != nil {
+					return
+				}
+				n, err = m.Decode(wb)
+			}()
+			desc := map[string]interface{}{"decoder": refcodec.Name(a.Type), "first": fmt.Sprintf("%x", wa), "second": fmt.Sprintf("%x", wb)}
+			switch {
+			case pan != nil:
+				x.fail(a.Type, "used-object", fmt.Sprintf("Decode panics on a used object: %v", pan), desc)
+			case err != nil:
+				x.fail(a.Type, "used-object", "a well-formed packet is rejected by an object that decoded another packet before: "+err.Error(), desc)
+			case n != len(wb):
+				x.fail(a.Type, "used-object", fmt.Sprintf("Decode into a used object consumes %d of %d bytes", n, len(wb)), desc)
+			default:
+				if d := sameFields(b, fromLib(m)); d != "" {
+					x.fail(a.Type, "used-object", "wrong field values for a well-formed packet decoded into a used object: "+d, desc)
+				}
+			}
+			if c.HasViolation() {
+				return
+			}
+		}
+	}
+	c.Rep.Scenarios++
 	// (ii) corpus: valid, truncated, corrupted
 	e.class = "corpus"
 	for _, p := range corpus() {
